@@ -561,19 +561,57 @@ theorem onTimeout_passthrough {ε} (x : Option ε) : onTimeout x = x := rfl
 inductive Op (σ P : Type) where
   | recv (pkt : P)
   | other (f : State σ → State σ)
+  | restart                       -- aggregate export / import
+  | dry (pkt : P)                 -- the callback on a dropped context
 
 /-- Runs a history through core + middleware; logs, per delivered packet, (acknowledgement committed by core,
     acknowledgement of the wrapped application). A panic aborts the transaction: nothing is committed or logged. -/
 def run (E : Evm σ) (view : P → View) (inner : Inner σ P) : State σ → List (Op σ P) → List (Option Ack × Ack)
   | _, [] => []
   | st, .other f :: rest => run E view inner (f st) rest
+  | st, .restart :: rest => run E view inner (restart st) rest
+  | st, .dry pkt :: rest => run E view inner (dropped true E view inner st pkt) rest
   | st, .recv pkt :: rest =>
     match onRecv true E view inner st pkt with
     | .ok r => ((coreCommit st r).1, inner.ack st pkt) :: run E view inner (coreCommit st r).2 rest
     | _ => run E view inner st rest
 
-/-- **Over histories**: in every history, from every state, every delivered packet gets exactly the wrapped
-    application's acknowledgement committed. -/
+/-- **restart_identity.** -/
+theorem restart_identity (st : State σ) : restart st = st := rfl
+
+/-- **dropped_identity.** -/
+theorem dropped_identity (fixed : Bool) (E : Evm σ) (view : P → View) (inner : Inner σ P) (st : State σ) (pkt : P) :
+    dropped fixed E view inner st pkt = st := rfl
+
+/-- Restarts and dropped executions anywhere in a history change nothing that follows. -/
+theorem run_ignores_restart_and_dry (E : Evm σ) (view : P → View) (inner : Inner σ P) (ops : List (Op σ P)) :
+    ∀ st, run E view inner st ops =
+      run E view inner st (ops.filter (fun o => match o with | .restart => false | .dry _ => false | _ => true)) := by
+  induction ops with
+  | nil => intro st; rfl
+  | cons op rest ih =>
+    intro st
+    cases op with
+    | other f => simp [run, ih]
+    | restart => simpa [run, restart] using ih st
+    | dry pkt => simpa [run, dropped] using ih st
+    | recv pkt =>
+      simp only [List.filter, run]
+      split <;> simp [ih]
+
+/-- a packet refused by the stateless stage has no effect at all (the middleware never runs) -/
+theorem rejected_never_runs (fixed : Bool) (E : Evm σ) (view : P → View) (inner : Inner σ P) (wire : P → Wire) (st : State σ) (pkt : P)
+    (h : packetValidateBasic (wire pkt) = false) : deliverMsg fixed E view inner wire st pkt = none := by
+  simp [deliverMsg, h]
+
+/-- … and an accepted one is exactly the handler's run. -/
+theorem accepted_is_handler (fixed : Bool) (E : Evm σ) (view : P → View) (inner : Inner σ P) (wire : P → Wire) (st : State σ) (pkt : P)
+    (h : packetValidateBasic (wire pkt) = true) :
+    deliverMsg fixed E view inner wire st pkt = some (onRecv fixed E view inner st pkt) := by
+  simp [deliverMsg, h]
+
+/-- **Over histories** (with restarts and dropped executions anywhere): in every history, from every state, every
+    delivered packet gets exactly the wrapped application's acknowledgement committed. -/
 theorem every_packet_acknowledged (E : Evm σ) (view : P → View) (inner : Inner σ P) (ops : List (Op σ P)) :
     ∀ st, ∀ e ∈ run E view inner st ops, e.1 = some e.2 := by
   induction ops with
@@ -582,6 +620,8 @@ theorem every_packet_acknowledged (E : Evm σ) (view : P → View) (inner : Inne
     intro st e he
     cases op with
     | other f => exact ih (f st) e (by simpa [run] using he)
+    | restart => exact ih st e (by simpa [run, restart] using he)
+    | dry pkt => exact ih st e (by simpa [run, dropped] using he)
     | recv pkt =>
       unfold run at he
       split at he
@@ -596,16 +636,42 @@ theorem every_packet_acknowledged (E : Evm σ) (view : P → View) (inner : Inne
 /-- … and no delivered packet is lost: under the guards every `recv` of the history is logged. -/
 theorem every_packet_logged (E : Evm σ) (hE : EvmSane E) (view : P → View) (inner : Inner σ P) (hI : InnerGuards view inner)
     (ops : List (Op σ P)) :
-    ∀ st, (run E view inner st ops).length = (ops.filter (fun o => match o with | .recv _ => true | .other _ => false)).length := by
+    ∀ st, (run E view inner st ops).length = (ops.filter (fun o => match o with | .recv _ => true | _ => false)).length := by
   induction ops with
   | nil => intro st; rfl
   | cons op rest ih =>
     intro st
     cases op with
     | other f => simpa [run] using ih (f st)
+    | restart => simpa [run, restart] using ih st
+    | dry pkt => simpa [run, dropped] using ih st
     | recv pkt =>
       obtain ⟨r, hr⟩ := onRecv_returns true E hE view inner hI st pkt
       simp [run, hr, ih]
+
+/-! ### frame: a second receiver / a second denomination / a second pair is not touched -/
+
+/-- **other_accounts_untouched.** Whatever packet is delivered: relative to the wrapped application's own effect, no
+    balance of any account other than the packet's receiver and the module account changes, in any denomination
+    (two receivers / two channels / two counterparties interleaved do not interfere through the middleware). -/
+theorem other_accounts_untouched (fixed : Bool) (E : Evm σ) (view : P → View) (inner : Inner σ P) (st : State σ) (pkt : P) (r : Res σ)
+    (h : onRecv fixed E view inner st pkt = .ok r) :
+    ∀ a d, a ≠ (view pkt).receiver.getD [] → a ≠ (inner.effect st pkt).modAddr →
+      r.st.bal a d = (inner.effect st pkt).bal a d := by
+  intro a d h1 h2
+  rcases conversion_atomic fixed E view inner st pkt r h with hu | hc
+  · rw [hu.1]
+  · obtain ⟨amt, id, p, b0, b1, e2, e3, _, _, _, _, _, _, _, _, _, hflow, _⟩ := hc
+    rcases hflow with ⟨_, _, _, hb⟩ | ⟨_, _, _, _, _, _, _, hb⟩
+    · rw [hb]; simp [sendCoins, addBal, h1, h2]
+    · rw [hb]; simp [sendCoins, addBal, h1, h2]
+
+/-- A conversion never touches the registry: every pair — in particular every OTHER pair and every other denomination of a
+    multi-denomination pair — keeps its contract, denominations, owner and enabled flag. -/
+theorem converted_registry_untouched (E : Evm σ) (v : View) (sI s : State σ) (h : Converted E v sI s) :
+    s.denomMap = sI.denomMap ∧ s.pairs = sI.pairs ∧ s.enabled = sI.enabled := by
+  obtain ⟨_, _, _, _, _, _, _, _, _, _, _, _, _, _, _, _, _, _, _, h1, h2, h3⟩ := h
+  exact ⟨h1, h2, h3⟩
 
 /-! ### non-vacuity and the machine-checked witness of F7 -/
 
